@@ -114,4 +114,9 @@ def check(ctx: Ctx) -> str:
     vm = repo.func("compiler:CodeGenerator.visit_Macro")
     s = ast.unparse(vm.node)
     ctx.check("context.vars[{node.name!r}] = " in s and "self.macro_def(macro_ref, macro_frame)" in s, "export:macro-object", "compiler:CodeGenerator.visit_Macro", "module exports the Macro object", "a top-level macro must be stored in context.vars as the same Macro object the template calls", vm.loc())
+    # which implicit parameters (caller / kwargs / varargs) a macro receives is decided by
+    # find_undeclared over its body: it must see every reference
+    from .c07 import undeclared_visitor_rule
+
+    undeclared_visitor_rule(ctx, "R5")
     return __doc__ or ""
